@@ -155,15 +155,23 @@ def install_contracts(log, which=('stop', 'primary', 'unitdir', 'intensity')):
               icontract.ensure(exactly_one_primary, error=ContractBroken)(WavelengthGroup.__dict__['add_wavelength']))
 
     if 'unitdir' in which:
-        def unit_direction_after(self):
+        def snap_norms(self, nx, ny, nz):
+            # the law only speaks about unit incoming directions and unit normals (unit tests also call with others)
+            d = self.L**2 + self.M**2 + self.N**2
+            n = np.asarray(nx, dtype=float)**2 + np.asarray(ny, dtype=float)**2 + np.asarray(nz, dtype=float)**2
+            return np.abs(d - 1) < 1e-12, np.abs(n - 1) < 1e-12
+
+        def unit_direction_after(self, OLD):
             m = self.L**2 + self.M**2 + self.N**2
-            fin = np.isfinite(m)
-            ok = bool(np.all(np.abs(m[fin] - 1) < 1e-9)) if fin.any() else True
+            unit_in, unit_n = OLD.norms
+            sel = np.isfinite(m) & np.broadcast_to(unit_in, m.shape) & np.broadcast_to(unit_n, m.shape)
+            ok = bool(np.all(np.abs(m[sel] - 1) < 1e-9)) if sel.any() else True
             return log.seen('C02.unit-direction', ok,
-                            dict(worst=float(np.max(np.abs(m[fin] - 1))) if fin.any() else 0.0))
+                            dict(worst=float(np.max(np.abs(m[sel] - 1))) if sel.any() else 0.0))
         for meth in ('refract', 'reflect'):
-            patch(RealRays, meth,
-                  icontract.ensure(unit_direction_after, error=ContractBroken)(RealRays.__dict__[meth]))
+            f = icontract.ensure(unit_direction_after, error=ContractBroken)(RealRays.__dict__[meth])
+            f = icontract.snapshot(snap_norms, name='norms')(f)
+            patch(RealRays, meth, f)
 
     if 'intensity' in which:
         def snap_i(self):
